@@ -48,6 +48,21 @@ class SimInverter:
             return 0xFFFF
         if self.fill == "step":
             return (self.step_byte(2 * a) << 8) | self.step_byte(2 * a + 1)
+        if self.fill == "constw":
+            # every register holds the same word: all multi-register fields (at any alignment) and all sensors see
+            # the same raw value, e.g. every bitmap sensor the same code word
+            return (0x0001, 0x0200, 0x8001, 0x0003, 0x4000, 0x0101, 0x8000, 0x00FF)[self.seed % 8]
+        if self.fill in ("sp32a", "sp32b"):
+            # special 32-bit patterns (IEEE infinities / NaN, integer extremes, sentinels) in aligned register pairs;
+            # 'a' pairs start at even addresses, 'b' pairs at odd ones
+            base = a - ((a - (1 if self.fill == "sp32b" else 0)) & 1)
+            x = (base * 0x9E3779B1 + self.seed * 0x85EBCA6B + 0x1B873593) & 0xFFFFFFFF
+            x ^= x >> 15
+            x = (x * 0x2C1B3C6D) & 0xFFFFFFFF
+            x ^= x >> 13
+            pat = (0x7F800000, 0xFF800000, 0x7FC00000, 0xFFFFFFFF, 0x7FFFFFFF, 0x80000000, 0x00000000, 0x7F7FFFFF,
+                   0x00000001, 0x80000001, 0xFFC00000, 0x00800000, 0x7F800001, 0xFFFFFFFE, 0x0000FFFF, 0xFFFF0000)[x & 15]
+            return (pat >> 16) if a == base else (pat & 0xFFFF)
         if self.fill == "bound":
             x = (a * 0x9E3779B1 + self.seed * 0x85EBCA6B + 0x165667B1) & 0xFFFFFFFF
             x ^= x >> 13
